@@ -41,6 +41,7 @@ type c19obs struct {
 	Loop    bool   `json:"loop"`
 	Phantom []bool `json:"phantom"`
 	Gens    []int  `json:"gens"`
+	Conn    string `json:"conn"` // connStats.PrintAndReset (the verbose statistics module of main): ok | panic:<msg>
 }
 type c19res struct {
 	Obs []c19obs `json:"obs"`
@@ -121,7 +122,13 @@ func c19run(c c19case, dir, shipped string) (r c19res) {
 				if _, err := liveness.New(conf.RegConfig.LivenessConfig()); err != nil {
 					return // NewRegistrationManager would log.Fatal
 				}
+				// main.go:60-64
+				connManager := newConnManager(nil)
+				conf.RegConfig.ConnectingStats = connManager
 				rm = cj.NewRegistrationManager(conf.RegConfig)
+				if rm != nil {
+					o.Conn = c19guard(func() { connManager.PrintAndReset(logger); connManager.Reset() })
+				}
 			})
 			if g != "ok" {
 				o.Stage = g
